@@ -146,6 +146,7 @@ def parse_rej(cond, consts):
 
 def ival(tok, consts):
     tok = tok.strip()
+    tok = re.sub(r"as(c_int|i32)$", "", tok)       # `MAX_SELKEY as c_int` (whitespace already stripped)
     if re.match(r"^-?[0-9]", tok):
         return str(rust_int(tok))
     if tok in consts:
